@@ -14,7 +14,7 @@ def cbit_cases(rng, tier):
         for rep in range(per):
             n = rng.range(4, 10 if tier == 'quick' else 24); m = rng.range(3, n)
             A = [[0.0] * n for _ in range(n)]
-            mode = rep % 6
+            mode = rep % 8
             if mode in (0, 1):
                 A = [[rnd(rng) for _ in range(n)] for _ in range(n)]
                 v0 = [rnd(rng) for _ in range(n)]
@@ -29,6 +29,18 @@ def cbit_cases(rng, tier):
                     for j in range(n):
                         if (i < 2) == (j < 2): A[j][i] = float(rng.range(-2, 2))
                 v0 = [0.0] * n; v0[0] = 1.0; v0[1] = 0.5
+            elif mode == 6:      # diagonal plus a tiny coupling, start = e_j: the residual norm falls between near_0 and sqrt(eps) -> the near-breakdown
+                                 # test of Lanczos (inner product with the previous basis vector) is executed (found unexercised by tools/coverage.sh)
+                for i in range(n): A[i][i] = float(i + 1)
+                e = 10.0 ** (-rng.range(9, 12))
+                for i in range(n):
+                    for j in range(i):
+                        if rng.below(2): A[i][j] = A[j][i] = e * rnd(rng)
+                v0 = [0.0] * n; v0[rng.below(n)] = 1.0
+            elif mode == 7:      # diagonal, start = e_j plus a perturbation of size 1e-9 .. 1e-12
+                for i in range(n): A[i][i] = float(i + 1)
+                e = 10.0 ** (-rng.range(9, 12))
+                v0 = [e * rnd(rng) for _ in range(n)]; v0[rng.below(n)] = 1.0
             else:                # small integers
                 A = [[float(rng.range(-2, 2)) for _ in range(n)] for _ in range(n)]
                 v0 = [float(rng.range(-2, 2)) for _ in range(n)]; v0[0] = 1.0
